@@ -16,7 +16,7 @@
 
   Mirrors: v2/reader.go  NewFileReader, ReadAllEntries, readNextBlock, LoadIndex.
 -/
-namespace Hv.Storage
+namespace Hv.BlockStore
 
 /-! ### Entries and the index they replay to -/
 
@@ -275,4 +275,4 @@ def lossyImageAt (d0 : Disk) (ops : List FsOp) (i j k : Nat) : Disk :=
 def CrashPoint (ops : List FsOp) (i j : Nat) : Prop :=
   i ≤ ops.length ∧ lastSyncIdx ops i ≤ j ∧ j ≤ i
 
-end Hv.Storage
+end Hv.BlockStore
